@@ -1,0 +1,26 @@
+//go:build verif
+
+package sender
+
+// Contracts for the verif engine (/verif). Comment-only: no code is compiled
+// from this file with or without the tag.
+
+// Exactly one completion per submission: either the worker enqueues one CQE itself, or it hands the
+// message (with the Done callback that enqueues it) to exactly one plugin which accepted it.
+
+//@ func (*SenderWorker).Process
+//@ props C19
+//@ nopanic C13
+//@ requires w != nil && w.aio != nil && w.metrics != nil && w.metrics.AioInFlight != nil && w.metrics.AioTotal != nil && w.plugins != nil && w.targets != nil
+//@ requires sqe != nil && sqe.Submission != nil && sqe.Submission.Sender != nil && sqe.Submission.Sender.Task != nil && sqe.Submission.Sender.Task.Mesg != nil
+//@ requires sqe.Submission.Sender.Task.Mesg.Type == message.Notify ==> sqe.Submission.Sender.Promise != nil
+//@ ensures [C12 C19] calls("enqueue_cqe") + calls("plugin_enqueue") >= 1 && calls("enqueue_cqe") <= 1 && calls("plugin_enqueue") <= 1
+//@ ensures [C12 C19] calls("plugin_enqueue") == 1 && callres("plugin_enqueue", 0, 0) ==> calls("enqueue_cqe") == 0
+//@ ensures [C12 C19] calls("plugin_enqueue") == 1 && !callres("plugin_enqueue", 0, 0) ==> calls("enqueue_cqe") == 1
+//@ ensures [C12 C19] calls("enqueue_cqe") == 1 ==> callarg("enqueue_cqe", 0, 1).Id == sqe.Id && callarg("enqueue_cqe", 0, 1).Error != nil && callarg("enqueue_cqe", 0, 1).Completion == nil
+
+//@ func schemeToRecv
+//@ props C19
+//@ nopanic C13
+//@ ensures result1 == (result0 != nil)
+//@ ensures result0 != nil ==> result0.Type == "http" || result0.Type == "poll"
